@@ -40,6 +40,8 @@ func scanLeaf(v reflect.Value) (uint64, bool) {
 		return uint64(x.cents), true
 	case Amount:
 		return uint64(x.Cents), true
+	case PtrValuer:
+		return uint64(x.N), true
 	case sql.NullInt64:
 		return uint64(x.Int64), true
 	case Counted:
@@ -1030,6 +1032,7 @@ func scanConcurrent(rounds int, add func(violation)) {
 	wg.Wait()
 	if bad != "" {
 		add(violation{"C06", "concurrent-reads-into-one-struct-type-mix-their-rows", hx("concurrent Get/GetAll of SELECT &Person.* FROM person"), bad})
+		add(violation{"C15", "concurrent-reads-into-one-struct-type-mix-their-rows", hx("concurrent Get/GetAll of SELECT &Person.* FROM person"), bad})
 	}
 }
 
